@@ -466,14 +466,15 @@ def _eyes(n: int) -> np.ndarray:
 
 
 def _prep_iterators(mol: Molecules, shape: tuple[int, int, int], scale: float):
-    # image slice must be integer so split it into two parts
+    # image slice must be integer so split the position of the template corner into
+    # the integer part (slice) and the sub-pixel residue (affine transformation)
     pos = mol.pos / scale
-    intpos = pos.astype(np.int32)
-    residue = pos - intpos.astype(np.float32)
+    center = (np.array(shape) - 1.0) / 2.0
+    corner = pos - center
+    starts = np.floor(corner).astype(np.int32)
+    residue = corner - starts.astype(np.float32)
 
     # construct matrices
-    center = (np.array(shape) - 1.0) / 2.0
-    starts = intpos - center.astype(np.int32)
     stops = starts + shape
     mtxs = _compose_affine_matrices(
         center, mol.rotator.inv(), output_center=center + residue
